@@ -92,11 +92,19 @@ class Report:
         wall = time.time() - self.t0
         for sig, what in self.known_seen.items():
             print(f"KNOWN-FINDING: property={self.pid} {sig}: {what}"[:400])
+        allsigs = {}
+        for sig, _, _ in self.violations:
+            allsigs[sig] = allsigs.get(sig, 0) + 1
+        (VERIF / "out").mkdir(exist_ok=True)
+        (VERIF / "out" / f"last_sigs_{self.pid}.json").write_text(json.dumps(allsigs, indent=1, sort_keys=True))
         paths = []
         seen_sigs = set()
         for sig, what, replay in self.violations:
-            if sig in seen_sigs and len(paths) >= 10:
+            # one replay file per distinct signature (up to 300), and up to 25 in total for repeats
+            if sig in seen_sigs and len(paths) >= 25:
                 continue
+            if len(paths) >= 300:
+                break
             seen_sigs.add(sig)
             d = REPLAY / self.pid
             d.mkdir(parents=True, exist_ok=True)
@@ -105,8 +113,6 @@ class Report:
             paths.append(f)
             print(f"VIOLATION property={self.pid} replay={f}")
             print(f"  sig={sig} :: {what}"[:600])
-            if len(paths) >= 25:
-                break
         cov = {
             "states": self.states,
             "transitions": self.transitions,
